@@ -113,6 +113,7 @@ fn classify(sc: &Scenario) -> &'static str {
 }
 
 pub fn c14(sc: &Scenario, stats: &mut Stats) -> Vec<Violation> {
+    crate::engine::tick();
     let mut v = vec![];
     // first execution = warm-up (one-time lazy initialisation can never be mistaken for a leak)
     if probe(sc, 1).is_none() {
@@ -185,6 +186,7 @@ pub fn soak(protocol: u8, seed: u64, calls: u64) -> (u64, Option<Violation>) {
         }
         done += 1;
         if i % 64 == 63 {
+            crate::engine::tick();
             g.reset();
             let l = live() - base;
             if i < warm {
